@@ -264,6 +264,15 @@ class CContext:
         for constant in ctyp.constants:
             if constant.value:
                 value = self.eval_expr(constant.value)
+            # An enumeration constant has type int (C11 6.7.2.2):
+            int_bits = 8 * self.type_size_map[BasicType.INT][0]
+            if not isinstance(value, int) or not (
+                -(1 << (int_bits - 1)) <= value < (1 << (int_bits - 1))
+            ):
+                self.error(
+                    f"Enumerator value {value} is not representable as int",
+                    constant.location,
+                )
             self._enum_values[constant] = value
 
             # Increase for next enum value:
